@@ -228,6 +228,11 @@ def run(ch, config, res):
         nseen = len(srv.sasl_seen)
         nviol = len(srv.violations)
         creds_problem[0] = None
+        with ch.scope(scope + ".digest"):
+            # what the digest-challenge offers changes from one connection to the next: a realm, another realm, none; the
+            # usual qop, a choice, or only a protection the client does not implement (then the server refuses the response)
+            cfg.realm = ["sim.example", "", "other.example", "sim.example"][ch.srv.int("realm", 4)]
+            cfg.digest_qop = ["auth", "auth,auth-int", "auth-int", "auth-int,auth-conf"][ch.srv.weighted("qop", [6, 2, 1, 1])]
         with ch.scope(scope):
             o = world.call(client, "connect", login, password, authz_id=authz, authmech=authmech, starttls=use_tls)
         seen = srv.sasl_seen[nseen:]
